@@ -1,0 +1,130 @@
+//go:build verif
+
+package parser
+
+import (
+	"github.com/smarthome-go/homescript/v3/homescript/lexer"
+	"github.com/smarthome-go/homescript/v3/homescript/parser/ast"
+)
+
+var _ = ast.VIsInfixTok // used in contracts
+
+// Specification vocabulary and contracts checked by /verif/hvc (build tag
+// verif only; see /verif/DESIGN.md section 4, C05/C07/C08).
+
+// pwf: the parser's representation invariant (its lexer is well-formed).
+func (p Parser) pwf() bool { return p.Lexer.VWf() }
+
+// M is the termination measure of the parser: the characters the lexer has
+// not consumed yet, plus one while the current token is not EOF. Every
+// successful next() from a non-EOF token strictly decreases it.
+func (p Parser) M() int {
+	m := p.Lexer.VRemaining()
+	if p.CurrentToken.Kind != lexer.EOF {
+		return m + 1
+	}
+	return m
+}
+
+/*@ template for (self *Parser) *
+    except next, nonCriticalErr, Parse, expectRecoverable, expectMultipleInternal, expectMultiple, expectedOneOfErr
+    serves C05
+    requires self.pwf()
+    ensures self.pwf()
+    ensures @monotone self.M() <= old(self.M())
+    ensures @progress lasterr == nil && old(self.CurrentToken.Kind) != lexer.EOF ==> self.M() < old(self.M())
+    ensures @nonnil [ast.Expression|ast.HmsType|ast.Statement] lasterr == nil ==> result != nil
+    loopinvariant self.pwf() && self.M() <= entry(self.M())
+    loopdecreases self.M()
+@*/
+
+/*@ func (self *Parser) next
+    serves C05, C08
+    requires self.pwf()
+    ensures self.pwf()
+    ensures @monotone self.M() <= old(self.M())
+    ensures @progress result == nil && old(self.CurrentToken.Kind) != lexer.EOF ==> self.M() < old(self.M())
+    ensures @shift result == nil ==> self.PreviousToken == old(self.CurrentToken)
+    ensures @unchanged result != nil ==> self.CurrentToken == old(self.CurrentToken) && self.PreviousToken == old(self.PreviousToken)
+@*/
+
+/*@ func (self *Parser) nonCriticalErr
+    serves C05
+    requires self.pwf()
+    ensures self.pwf() && self.M() == old(self.M())
+    ensures self.CurrentToken == old(self.CurrentToken) && self.PreviousToken == old(self.PreviousToken)
+@*/
+
+/*@ func (self *Parser) expectRecoverable
+    serves C05
+    requires self.pwf()
+    ensures self.pwf()
+    ensures @monotone self.M() <= old(self.M())
+    ensures @progress result == nil && old(self.CurrentToken.Kind) == expected && expected != lexer.EOF ==> self.M() < old(self.M())
+    ensures @recovered old(self.CurrentToken.Kind) != expected ==> result == nil && self.M() == old(self.M()) && self.CurrentToken == old(self.CurrentToken) && self.PreviousToken == old(self.PreviousToken)
+@*/
+
+/*@ func (self *Parser) expectMultipleInternal
+    serves C05
+    requires self.pwf()
+    ensures self.pwf()
+    ensures @monotone self.M() <= old(self.M())
+    ensures @progress result == nil && advance && old(self.CurrentToken.Kind) != lexer.EOF ==> self.M() < old(self.M())
+    ensures @member result == nil ==> exists i in 0..len(expected) :: expected[i] == old(self.CurrentToken.Kind)
+    ensures @peek !advance ==> self.M() == old(self.M()) && self.CurrentToken == old(self.CurrentToken) && self.PreviousToken == old(self.PreviousToken)
+    loop 1 invariant self.pwf() && self.M() == old(self.M()) && self.CurrentToken == old(self.CurrentToken) && self.PreviousToken == old(self.PreviousToken)
+    loop 1 invariant forall j in 0..rangeindex() :: expected[j] != self.CurrentToken.Kind
+@*/
+
+/*@ func (self *Parser) expectMultiple
+    serves C05
+    requires self.pwf()
+    ensures self.pwf()
+    ensures @monotone self.M() <= old(self.M())
+    ensures @progress result == nil && old(self.CurrentToken.Kind) != lexer.EOF ==> self.M() < old(self.M())
+    ensures @member result == nil ==> exists i in 0..len(expected) :: expected[i] == old(self.CurrentToken.Kind)
+@*/
+
+/*@ func (self Parser) expectedOneOfErr
+    serves C05, C08
+    ensures result != nil
+@*/
+
+/*@ func (self *Parser) expect
+    ensures @matched result == nil ==> old(self.CurrentToken.Kind) == expected
+    ensures @mismatch old(self.CurrentToken.Kind) != expected ==> result != nil && self.M() == old(self.M()) && self.CurrentToken == old(self.CurrentToken) && self.PreviousToken == old(self.PreviousToken)
+@*/
+
+/*@ func (self *Parser) expression
+    loop 1 invariant lhs != nil
+@*/
+
+/*@ func (self *Parser) Parse
+    serves C05
+    requires self.pwf()
+    ensures self.pwf()
+@*/
+
+/*@ func (self *Parser) intFloatLiteral
+    requires self.CurrentToken.Kind == lexer.Int || self.CurrentToken.Kind == lexer.Float
+@*/
+
+/*@ func (self *Parser) prefixExpression
+    requires ast.VIsPrefixTok(self.CurrentToken.Kind)
+@*/
+
+/*@ func (self *Parser) infixExpression
+    requires ast.VIsInfixTok(self.CurrentToken.Kind) && lhs != nil
+@*/
+
+/*@ func (self *Parser) assignExpression
+    requires ast.VIsAssignTok(self.CurrentToken.Kind) && lhs != nil
+@*/
+
+/*@ func (self *Parser) statemtent
+    ensures @either lasterr == nil ==> result.Statement != nil || result.Expression != nil
+@*/
+
+/*@ func (self *Parser) expressionStatement
+    ensures @either lasterr == nil ==> result.Statement != nil || result.Expression != nil
+@*/
